@@ -220,7 +220,7 @@ pub fn print_certified() {
 // ───────────────────────────── hand-written pairs ─────────────────────────────
 
 /// (name, JavaScript, TypeScript) — both are complete programs that return a string
-const PAIRS: &[(&str, &str, &str)] = &[
+pub const PAIRS: &[(&str, &str, &str)] = &[
     ("generic-arrow", "const id = (x) => x; id(5) + ''", "const id = <T>(x: T): T => x; id(5) + ''"),
     ("generic-arrow-comma", "const id = (x) => x; id('a')", "const id = <T,>(x: T) => x; id('a')"),
     ("generic-arrow-constraint", "const f = (x) => x.length; f('abc') + ''", "const f = <T extends { length: number }>(x: T): number => x.length; f('abc') + ''"),
